@@ -81,6 +81,7 @@ func main() {
 	runEncoderHistories()
 	runDecoderHistories()
 	runLargeCountHistories()
+	runManyErrors()
 	runDecoderFailureHistories()
 	runSpecialParity()
 	runSyndromeKernelErrors()
